@@ -327,7 +327,7 @@ func (rn *runner) shrink(w *World, input []byte, sig string) []byte {
 }
 
 // one input on one world: correspondence + oracle
-func (rn *runner) check(w *World, input []byte, answer string, tree *J, parses bool) {
+func (rn *runner) check(w *World, input []byte, answer string, tree *J, parses bool) []byte {
 	res := rn.res
 	o := w.handle(input)
 	res.Case(string(input), parses && (tree.K == '{' || tree.K == '['))
@@ -354,13 +354,21 @@ func (rn *runner) check(w *World, input []byte, answer string, tree *J, parses b
 			}
 		}
 	}
+	for _, c := range []string{"missing required params", "expected between", "missing non-optional param", "unexpected params",
+		"cannot unmarshal", "failed on the", "felt:", "empty batch", "batch requests are disabled", "unsupported RPC request version",
+		"no method specified", "params should be an array", "id should be a string", "exceeded max depth", "unexpected end of input",
+		"unexpected trailing comma", "expected a JSON object"} {
+		if strings.Contains(string(o.Out), c) {
+			res.Hit("branch:" + c)
+		}
+	}
 	res.HitN("handler-invocations", len(o.Calls))
 	if answer == "dk" {
 		res.Hit("model:dont-know")
 	}
 	if strings.HasPrefix(answer, "bad-op") {
 		res.Mismatch(lib.Mismatch{Sig: "driver-rejects-input", Input: describe(input), Model: answer})
-		return
+		return o.Out
 	}
 	res.Compared(1)
 	if why := compare(answer, o, parses && tree.K == '['); why != "" && !o.Hung && !o.Panicked {
@@ -388,6 +396,7 @@ func (rn *runner) check(w *World, input []byte, answer string, tree *J, parses b
 	if parses {
 		res.Sample(8, map[string]string{"input": describe(input), "output": string(o.Out), "calls": callsText(o.Calls)})
 	}
+	return o.Out
 }
 
 func (rn *runner) runWorld(spec WorldSpec, inputs [][]byte) error {
@@ -409,9 +418,11 @@ func (rn *runner) runWorld(spec WorldSpec, inputs [][]byte) error {
 	if err != nil {
 		return err
 	}
+	outs := make([][]byte, len(inputs))
 	for i, in := range inputs {
-		rn.check(w, in, answers[i], trees[i], parses[i])
+		outs[i] = rn.check(w, in, answers[i], trees[i], parses[i])
 	}
+	rn.prettyTie(w, inputs, outs)
 	return nil
 }
 
@@ -495,6 +506,7 @@ func main() {
 			in := corpus(w)
 			if i == 0 {
 				in = append(in, exhaustive()...)
+				in = append(in, bindingExhaustive(spec)...)
 			}
 			return in
 		}})
@@ -555,8 +567,10 @@ func main() {
 			res.Mismatch(lib.Mismatch{Sig: "harness-run-aborted", Model: err.Error()})
 		}
 	}
-	// 3. the method tables juno serves
+	// 3. the method tables juno serves; the validator; the model's default configuration
 	rn.realTables()
+	rn.validatorTie()
+	rn.floatTie(r.Fork(31337))
 	// 4. transports
 	{
 		spec := fixedWorld(false, 4)
